@@ -813,6 +813,24 @@ def piecewise_collapses(exprs, seconds=6.0):
             if not isinstance(sx, sympy.Piecewise) or len(sx.args) != len(pw.args) or len(sx.args) < 2 or sx.args[-1].cond != sympy.true:
                 verdict = True
                 break
+            # the printers simplify again when they reach a NESTED Piecewise of the simplified result (whose conditions the outer
+            # simplify may have rewritten, e.g. ITE(a > 3, True, a < 4 | ...) into the tautology (a > 3) | (a < 4) | ...)
+            for inner in sx.atoms(sympy.Piecewise):
+                if inner == sx:
+                    continue
+                try:
+                    with quiet():
+                        ix = sympy.simplify(inner)
+                except _Late:
+                    raise
+                except Exception:  # noqa: BLE001
+                    verdict = True
+                    break
+                if not isinstance(ix, sympy.Piecewise) or len(ix.args) != len(inner.args) or len(ix.args) < 2 or ix.args[-1].cond != sympy.true:
+                    verdict = True
+                    break
+            if verdict:
+                break
     except _Late:
         verdict = None
     finally:
